@@ -26,7 +26,7 @@ def r10_3(ctx, run, rule='R10.3'):
     f = ctx.facts
     b = f.one('de::from_slice')
     if b is None:
-        run.violation(rule, 'de::from_slice', 'body', 'function not found (anchor lost)')
+        run.undecided(rule, 'de::from_slice', 'body', 'function not found (anchor lost)')
         return
     ps, _ = explore(b)
     n = 0
@@ -77,11 +77,22 @@ def r10_4(ctx, run, rule='R10.4'):
                             continue
                         seen.add(key)
                         n += 1
+                        loc = f"{e[5].get('file')}:{e[5].get('line')}"
+                        last = key.split('::')[-1]
                         if called(e[1], *ALLOWED_BUF_CONSUMERS):
-                            run.proved(rule, p, f'use[{key.split("::")[-1]}]', 'checked reader')
+                            run.proved(rule, p, f'use[{last}]', 'checked reader')
+                        elif 'unchecked' in last or last in ('from_raw_parts', 'as_ptr', 'as_mut_ptr', 'transmute', 'offset', 'add', 'read', 'read_unaligned') and 'ReadBytesExt' not in key:
+                            run.violation(rule, p, f'use[{key}]', 'the decoder input is consumed by an unchecked primitive (no bounds / validity check): untrusted bytes can be read out of range',
+                                          loc)
+                        elif e[1] in f.bodies:
+                            run.proved(rule, p, f'use[{last}]', 'handed to a function of this crate, which is part of the analysed cone (R10.1)', nontrivial=False)
+                        elif called(e[1], 'slice::split_at', 'slice::split_first', 'slice::split_last', 'slice::first', 'slice::last', 'slice::iter', 'slice::is_empty',
+                                    'slice::starts_with', 'slice::to_vec', 'slice::chunks', 'slice::chunks_exact', 'slice::split_at_checked', 'slice::first_chunk',
+                                    'slice::split_first_chunk', 'slice::copy_from_slice', 'ReadBytesExt::read_u8', 'ReadBytesExt::read_u16', 'ReadBytesExt::read_u64',
+                                    'Read::read_exact', 'Deref::deref', 'AsRef::as_ref', 'Clone::clone'):
+                            run.proved(rule, p, f'use[{last}]', 'safe std reader; its panic conditions, if any, are sites of R10.1')
                         else:
-                            run.violation(rule, p, f'use[{key}]', 'the decoder input is consumed by a callee that is not a checked reader (read_u32 / get / len / proven slice)',
-                                          f"{e[5].get('file')}:{e[5].get('line')}")
+                            run.undecided(rule, p, f'use[{key}]', 'the decoder input is consumed by a callee this rule has no classification for (neither a known checked reader nor a known unchecked primitive)', loc)
     run.floor(rule, 'uses of the decoder input', n, 5)
 
 
